@@ -19,7 +19,11 @@ import (
 	"bytes"
 	"encoding/hex"
 	"fmt"
+	"os"
+	"runtime"
+	"runtime/pprof"
 	"strings"
+	"sync"
 	"testing"
 
 	"verif/engine/enum"
@@ -50,6 +54,8 @@ type checker struct {
 	logEC   *pki.Key
 	logRSA  *pki.Key
 	logBad  *pki.Key
+	statMu  sync.Mutex
+	stat    [3]int64
 }
 
 const baseTS = uint64(1700000000000)
@@ -120,7 +126,7 @@ func (c *checker) buildSCT(sp sctSpec, ts uint64, entries signedEntries) *builtS
 	}
 	b.lib = &ct.SignedCertificateTimestamp{SCTVersion: ct.V1, LogID: ct.LogID{KeyID: b.key.KeyHash()}, Timestamp: ts,
 		Extensions: ct.CTExtensions(b.ext),
-		Signature: ct.DigitallySigned{Algorithm: tls.SignatureAndHashAlgorithm{Hash: tls.SHA256, Signature: tls.SignatureAlgorithm(sigAlg)}, Signature: sig}}
+		Signature:  ct.DigitallySigned{Algorithm: tls.SignatureAndHashAlgorithm{Hash: tls.SHA256, Signature: tls.SignatureAlgorithm(sigAlg)}, Signature: sig}}
 	return b
 }
 
@@ -147,6 +153,8 @@ type spec struct {
 	subjN   int
 	subjKey string
 	scts    []sctSpec
+	flip    bool // the target extension carries the opposite criticality flag (poison non-critical, SCT list critical)
+	realSig bool // RSA-signed certificates carry a real signature (always true for the other key types); also the deeper SCT checks
 }
 
 func (c *checker) modeLabel(s *spec) string {
@@ -176,35 +184,91 @@ func (c *checker) describe(s *spec) map[string]any {
 	}
 	return map[string]any{"family": s.fam, "issuer_key": s.is.kind, "issuer_name": s.is.nameLbl, "issuance": c.modeLabel(s),
 		"extensions": s.lay.String(c.al), "serial": s.serial.label, "validity": s.val.label, "unique_ids": s.uid.label,
-		"subject_name": s.subjN, "subject_key": s.subjKey, "scts": strings.Join(ss, " ")}
+		"subject_name": s.subjN, "subject_key": s.subjKey, "scts": strings.Join(ss, " "), "target_criticality_flipped": s.flip}
 }
 
 type caseCtx struct {
-	c     *checker
-	s     *spec
-	ctx   string
-	stage string
-	extra map[string]string
+	c        *checker
+	s        *spec
+	mode     string // full issuance label (direct | preissuer aki=...)
+	noExts   bool   // the expected entry TBS carries no extension at all
+	upstream bool   // a TBS or leaf comparison already failed in this case
+	stage    string
+	extra    map[string][]byte
 }
 
-func (k *caseCtx) viol(sig, detail string) {
+const noExtsLeft = "remaining-extensions=0"
+
+// Signature strata. A signature names the oracle, the API and the field that
+// differs; the issuance arrangement is added only where it can matter: not for
+// the APIs that never look at the issuer (RemoveSCTList, RemoveCTPoison,
+// MerkleTreeLeafForEmbeddedSCT), coarsely (direct / preissuer) for the issuer
+// name and the issuer key hash, in full (AKI sub-case) for the extension list.
+// Oracles downstream of an entry mismatch say so instead of repeating it.
+func (k *caseCtx) coarse() string {
+	if k.s.mode == 0 {
+		return "issuance=direct"
+	}
+	return "issuance=preissuer"
+}
+
+func (k *caseCtx) fieldCtx(field string, modeSensitive, wantHasExts bool) string {
+	switch {
+	case !wantHasExts:
+		return noExtsLeft
+	case !modeSensitive:
+		return ""
+	case field == "issuer" || field == "issuer_key_hash" || field == "error":
+		return k.coarse()
+	case strings.Contains(field, "extensions"):
+		return k.mode
+	}
+	return ""
+}
+
+func (k *caseCtx) down() string {
+	switch {
+	case k.noExts:
+		return noExtsLeft
+	case k.upstream:
+		return "after-entry-mismatch"
+	}
+	return k.coarse()
+}
+
+func (k *caseCtx) viol(sig, detail string) { k.violCtx(k.down(), sig, detail) }
+
+func (k *caseCtx) violCtx(ctx, sig, detail string) {
 	d := k.c.describe(k.s)
 	for a, b := range k.extra {
-		d[a] = b
+		d[a] = hx(b)
 	}
 	d["detail"] = detail
-	k.c.r.Violation(sig+" "+k.ctx, sig+" ["+k.ctx+"; "+k.s.lay.String(k.c.al)+"]: "+detail, d)
+	if ctx != "" {
+		sig += " " + ctx
+	}
+	k.c.r.Violation(sig, sig+" ["+k.mode+"; "+k.s.lay.String(k.c.al)+"]: "+detail, d)
+}
+
+// hasExtensions: does the (reference-built) TBS carry an extensions field?
+func hasExtensions(tbs []byte) bool {
+	fs, _ := tlvs(content(tbs))
+	return len(fs) > 0 && fs[len(fs)-1][0] == 0xa3
 }
 
 func hx(b []byte) string { return hex.EncodeToString(b) }
 
-func (k *caseCtx) tbsCheck(api string, got []byte, err error, want []byte) bool {
+func (k *caseCtx) tbsCheck(api string, modeSensitive bool, got []byte, err error, want []byte) bool {
 	if err != nil {
-		k.viol("tbs-error "+api, fmt.Sprintf("%s failed on a canonical template: %v", api, err))
+		k.upstream = true
+		k.violCtx(k.fieldCtx("error", modeSensitive, hasExtensions(want)), "tbs-error "+api, fmt.Sprintf("%s failed on a canonical template: %v", api, err))
 		return false
 	}
 	if !bytes.Equal(got, want) {
-		k.viol("tbs-bytes "+api+" field="+diffField(got, want), fmt.Sprintf("%s returned %s, the template without the target extension is %s", api, hx(got), hx(want)))
+		k.upstream = true
+		f := diffField(got, want)
+		k.violCtx(k.fieldCtx(f, modeSensitive, hasExtensions(want)), "tbs-bytes "+api+" field="+f,
+			fmt.Sprintf("%s returned %s, the template without the target extension is %s", api, hx(got), hx(want)))
 		return false
 	}
 	return true
@@ -217,40 +281,44 @@ func leafBytes(l *ct.MerkleTreeLeaf) ([]byte, error) {
 	return tls.Marshal(*l)
 }
 
-func (k *caseCtx) leafCheck(api string, l *ct.MerkleTreeLeaf, err error, want []byte, wantEntry ref.SignedEntry) []byte {
+func (k *caseCtx) leafCheck(api string, modeSensitive bool, l *ct.MerkleTreeLeaf, err error, want []byte, wantEntry ref.SignedEntry) []byte {
 	if err != nil {
-		k.viol("leaf-error "+api, fmt.Sprintf("%s failed on a canonical chain: %v", api, err))
+		k.upstream = true
+		k.violCtx(k.fieldCtx("error", modeSensitive, !k.noExts), "leaf-error "+api, fmt.Sprintf("%s failed on a canonical chain: %v", api, err))
 		return nil
 	}
 	got, err := leafBytes(l)
 	if err != nil {
-		k.viol("leaf-error "+api, fmt.Sprintf("%s returned a leaf that does not serialize: %v", api, err))
+		k.upstream = true
+		k.violCtx(k.fieldCtx("error", modeSensitive, !k.noExts), "leaf-error "+api, fmt.Sprintf("%s returned a leaf that does not serialize: %v", api, err))
 		return nil
 	}
 	if !bytes.Equal(got, want) {
-		part := "framing"
+		k.upstream = true
+		part, field := "framing", ""
 		if g, perr := ref.ParseMerkleTreeLeaf(got); perr == nil {
 			switch {
 			case g.Entry.EntryType != wantEntry.EntryType:
 				part = "entry_type"
 			case g.Entry.IssuerKeyHash != wantEntry.IssuerKeyHash:
-				part = "issuer_key_hash"
+				part, field = "issuer_key_hash", "issuer_key_hash"
 			case !bytes.Equal(g.Entry.TBS, wantEntry.TBS):
-				part = "tbs_certificate/" + diffField(g.Entry.TBS, wantEntry.TBS)
+				field = diffField(g.Entry.TBS, wantEntry.TBS)
+				part = "tbs_certificate/" + field
 			default:
 				part = "timestamp-or-extensions"
 			}
 		}
-		k.viol("leaf-bytes "+api+" part="+part, fmt.Sprintf("%s gives %s, reference leaf is %s", api, hx(got), hx(want)))
+		k.violCtx(k.fieldCtx(field, modeSensitive, !k.noExts), "leaf-bytes "+api+" part="+part, fmt.Sprintf("%s gives %s, reference leaf is %s", api, hx(got), hx(want)))
 	}
 	return got
 }
 
 func (c *checker) run(s *spec) {
-	k := &caseCtx{c: c, s: s, ctx: c.modeLabel(s), extra: map[string]string{}}
+	k := &caseCtx{c: c, s: s, mode: c.modeLabel(s), extra: map[string][]byte{}}
 	pan, msg, stack := enum.Catch(func() { c.runCase(k) })
 	if pan {
-		k.viol("panic at "+k.stage, msg+"\n"+stack)
+		k.violCtx("", "panic at "+k.stage, msg+"\n"+stack)
 	}
 }
 
@@ -286,15 +354,17 @@ func (c *checker) runCase(k *caseCtx) {
 	if appendAKI {
 		extsR = append(extsR, akiFinal)
 	}
-	if len(extsR) == 0 {
-		k.ctx += " remaining-extensions=0"
-	}
+	k.noExts = len(extsR) == 0
 	R := base.with(extsR).tbs()
 	preT := base
 	preT.issuer = signerName
-	Ptbs := preT.with(insertAt(al, s.lay.nbs, akiP, s.lay.pos, pki.ExtPoison().DER())).tbs()
+	poison := pki.ExtPoison().DER()
+	if s.flip {
+		poison = ext(pki.OIDPoison, false, der.Null())
+	}
+	Ptbs := preT.with(insertAt(al, s.lay.nbs, akiP, s.lay.pos, poison)).tbs()
 	RP := preT.with(resolve(al, s.lay.nbs, akiP)).tbs()
-	Pder := cert(Ptbs, signer)
+	Pder := cert(Ptbs, signer, s.realSig)
 
 	caHash := is.caKey.KeyHash()
 	entries := signedEntries{
@@ -321,17 +391,19 @@ func (c *checker) runCase(k *caseCtx) {
 	if err != nil {
 		panic(err)
 	}
-	extsF := insertAt(al, s.lay.nbs, akiFinal, s.lay.pos, pki.ExtSCTList(sctListTLS).DER())
+	sctExt := pki.ExtSCTList(sctListTLS).DER()
+	if s.flip {
+		sctExt = ext(pki.OIDSCTList, true, der.OctetString(sctListTLS))
+	}
+	extsF := insertAt(al, s.lay.nbs, akiFinal, s.lay.pos, sctExt)
 	if appendAKI {
 		extsF = append(extsF, akiFinal)
 	}
 	Ftbs := base.with(extsF).tbs()
-	Fder := cert(Ftbs, is.caKey)
-	k.extra["precert_tbs"], k.extra["final_tbs"], k.extra["expected_entry_tbs"] = hx(Ptbs), hx(Ftbs), hx(R)
-	c.r.Nontrivial(k.ctx + "|" + string(Ptbs) + "|" + string(R) + "|" + fmt.Sprint(s.scts))
-	if lenWidthChanges(Ptbs, R) || lenWidthChanges(Ftbs, R) {
-		c.r.Add("cases_where_removal_changes_the_width_of_a_length_field", 1)
-	}
+	Fder := cert(Ftbs, is.caKey, s.realSig)
+	k.extra["precert_tbs"], k.extra["final_tbs"], k.extra["expected_entry_tbs"] = Ptbs, Ftbs, R
+	c.r.Nontrivial(k.mode + "|" + fmt.Sprint(s.flip) + string(Ptbs) + "|" + string(R) + "|" + fmt.Sprint(s.scts))
+	c.count(lenWidthChanges(Ptbs, R), lenWidthChanges(Ftbs, R), len(extsR) == 0)
 
 	// ---- (b) the TBS transformation, byte for byte -----------------------------
 	var preX *x509.Certificate
@@ -341,37 +413,37 @@ func (c *checker) runCase(k *caseCtx) {
 	inP, inF := append([]byte{}, Ptbs...), append([]byte{}, Ftbs...)
 	k.stage = "x509.BuildPrecertTBS"
 	got, err := x509.BuildPrecertTBS(inP, preX)
-	k.tbsCheck("BuildPrecertTBS", got, err, R)
+	k.tbsCheck("BuildPrecertTBS", true, got, err, R)
 	k.stage = "x509.RemoveCTPoison"
 	got, err = x509.RemoveCTPoison(inP)
-	k.tbsCheck("RemoveCTPoison", got, err, RP)
+	k.tbsCheck("RemoveCTPoison", false, got, err, RP)
 	k.stage = "x509.RemoveSCTList"
 	got, err = x509.RemoveSCTList(inF)
-	k.tbsCheck("RemoveSCTList", got, err, R)
+	k.tbsCheck("RemoveSCTList", false, got, err, R)
 	if !bytes.Equal(inP, Ptbs) || !bytes.Equal(inF, Ftbs) {
-		k.viol("input-modified tbs-transformation", "the caller's TBS buffer was modified")
+		k.violCtx("", "input-modified tbs-transformation", "the caller's TBS buffer was modified")
 	}
 	// the wrong remover must refuse: the other route's target is absent
 	k.stage = "x509.RemoveSCTList(precert)"
 	if got, err = x509.RemoveSCTList(inP); err == nil {
-		k.viol("must-fail RemoveSCTList target=absent(precert)", "RemoveSCTList succeeded on a TBS without SCT list: "+hx(got))
+		k.violCtx("", "must-fail RemoveSCTList target=absent(precert)", "RemoveSCTList succeeded on a TBS without SCT list: "+hx(got))
 	}
 	k.stage = "x509.RemoveCTPoison(final)"
 	if got, err = x509.RemoveCTPoison(inF); err == nil {
-		k.viol("must-fail RemoveCTPoison target=absent(final)", "RemoveCTPoison succeeded on a TBS without poison: "+hx(got))
+		k.violCtx("", "must-fail RemoveCTPoison target=absent(final)", "RemoveCTPoison succeeded on a TBS without poison: "+hx(got))
 	}
 
 	// ---- (a) both routes give the reference log entry --------------------------
 	k.stage = "x509.ParseCertificate(precert)"
 	Px, err := x509.ParseCertificate(Pder)
 	if err != nil {
-		k.viol("parse-error precertificate", fmt.Sprintf("ParseCertificate: %v", err))
+		k.violCtx("", "parse-error precertificate", fmt.Sprintf("ParseCertificate: %v", err))
 		return
 	}
 	k.stage = "x509.ParseCertificate(final)"
 	Fx, err := x509.ParseCertificate(Fder)
 	if err != nil {
-		k.viol("parse-error final-certificate", fmt.Sprintf("ParseCertificate: %v", err))
+		k.violCtx("", "parse-error final-certificate", fmt.Sprintf("ParseCertificate: %v", err))
 		return
 	}
 	chainF := []*x509.Certificate{Fx, px.ca, px.root}
@@ -385,37 +457,37 @@ func (c *checker) runCase(k *caseCtx) {
 	want := refLeaf(ts0, entries["ok"], nil)
 	k.stage = "ct.MerkleTreeLeafFromChain"
 	l1, err := ct.MerkleTreeLeafFromChain(chainP, ct.PrecertLogEntryType, ts0)
-	b1 := k.leafCheck("MerkleTreeLeafFromChain", l1, err, want, entries["ok"])
+	b1 := k.leafCheck("MerkleTreeLeafFromChain", true, l1, err, want, entries["ok"])
 	k.stage = "ct.MerkleTreeLeafFromRawChain"
 	l2, err := ct.MerkleTreeLeafFromRawChain(rawP, ct.PrecertLogEntryType, ts0)
-	k.leafCheck("MerkleTreeLeafFromRawChain", l2, err, want, entries["ok"])
+	k.leafCheck("MerkleTreeLeafFromRawChain", true, l2, err, want, entries["ok"])
 	k.stage = "ct.MerkleTreeLeafForEmbeddedSCT"
 	l3, err := ct.MerkleTreeLeafForEmbeddedSCT(chainF, ts0)
-	b3 := k.leafCheck("MerkleTreeLeafForEmbeddedSCT", l3, err, want, entries["ok"])
+	b3 := k.leafCheck("MerkleTreeLeafForEmbeddedSCT", false, l3, err, want, entries["ok"])
 	if b1 != nil && b3 != nil && !bytes.Equal(b1, b3) {
 		k.viol("route-mismatch precert-chain-vs-embedded-sct", fmt.Sprintf("precert route %s, embedded route %s", hx(b1), hx(b3)))
 	}
 	if !bytes.Equal(Px.RawTBSCertificate, Ptbs) || !bytes.Equal(Fx.RawTBSCertificate, Ftbs) {
-		k.viol("input-modified parsed-certificate", "RawTBSCertificate changed under the leaf builders")
+		k.violCtx("", "input-modified parsed-certificate", "RawTBSCertificate changed under the leaf builders")
 	}
 
 	// ---- (c) the SCT list reads back element for element -----------------------
 	k.stage = "Certificate.SCTList"
 	if !bytes.Equal(Fx.RawSCT, sctListTLS) {
-		k.viol("sctlist-readback Certificate.RawSCT", fmt.Sprintf("RawSCT %s, embedded %s", hx(Fx.RawSCT), hx(sctListTLS)))
+		k.violCtx("", "sctlist-readback Certificate.RawSCT", fmt.Sprintf("RawSCT %s, embedded %s", hx(Fx.RawSCT), hx(sctListTLS)))
 	}
 	if len(Fx.SCTList.SCTList) != len(embedded) {
-		k.viol("sctlist-readback Certificate.SCTList count", fmt.Sprintf("%d elements read back, %d embedded", len(Fx.SCTList.SCTList), len(embedded)))
+		k.violCtx("", "sctlist-readback Certificate.SCTList count", fmt.Sprintf("%d elements read back, %d embedded", len(Fx.SCTList.SCTList), len(embedded)))
 	} else {
 		for i := range embedded {
 			if !bytes.Equal(Fx.SCTList.SCTList[i].Val, embedded[i]) {
-				k.viol("sctlist-readback Certificate.SCTList element", fmt.Sprintf("element %d is %s, embedded %s", i, hx(Fx.SCTList.SCTList[i].Val), hx(embedded[i])))
+				k.violCtx("", "sctlist-readback Certificate.SCTList element", fmt.Sprintf("element %d is %s, embedded %s", i, hx(Fx.SCTList.SCTList[i].Val), hx(embedded[i])))
 				break
 			}
 		}
 	}
 	if len(Px.SCTList.SCTList) != 0 || len(Px.RawSCT) != 0 {
-		k.viol("sctlist-readback precertificate-has-scts", "a precertificate without SCT list extension parsed with a non-empty SCTList")
+		k.violCtx("", "sctlist-readback precertificate-has-scts", "a precertificate without SCT list extension parsed with a non-empty SCTList")
 	}
 	var embSCTs []*builtSCT
 	for _, b := range scts {
@@ -430,14 +502,14 @@ func (c *checker) runCase(k *caseCtx) {
 	} {
 		ps, err := f()
 		if err != nil || len(ps) != len(embSCTs) {
-			k.viol("sctlist-readback "+name, fmt.Sprintf("err=%v, %d SCTs, embedded %d", err, len(ps), len(embSCTs)))
+			k.violCtx("", "sctlist-readback "+name, fmt.Sprintf("err=%v, %d SCTs, embedded %d", err, len(ps), len(embSCTs)))
 			continue
 		}
 		for i, b := range embSCTs {
 			p := ps[i]
 			if p == nil || p.SCTVersion != ct.V1 || p.LogID.KeyID != b.key.KeyHash() || p.Timestamp != b.ts || !bytes.Equal(p.Extensions, b.ext) ||
 				p.Signature.Algorithm != b.lib.Signature.Algorithm || !bytes.Equal(p.Signature.Signature, b.lib.Signature.Signature) {
-				k.viol("sctlist-readback "+name+" element", fmt.Sprintf("SCT %d (%s) read back as %+v", i, b.spec, p))
+				k.violCtx("", "sctlist-readback "+name+" element", fmt.Sprintf("SCT %d (%s) read back as %+v", i, b.spec, p))
 				break
 			}
 		}
@@ -451,21 +523,21 @@ func (c *checker) runCase(k *caseCtx) {
 	}
 	ml, err := x509util.MarshalSCTsIntoSCTList(libSCTs)
 	if err != nil || ml == nil || len(ml.SCTList) != len(embedded) {
-		k.viol("sctlist-marshal MarshalSCTsIntoSCTList", fmt.Sprintf("err=%v", err))
+		k.violCtx("", "sctlist-marshal MarshalSCTsIntoSCTList", fmt.Sprintf("err=%v", err))
 	} else {
 		for i := range embedded {
 			if !bytes.Equal(ml.SCTList[i].Val, embedded[i]) {
-				k.viol("sctlist-marshal MarshalSCTsIntoSCTList element", fmt.Sprintf("element %d: %s, reference %s", i, hx(ml.SCTList[i].Val), hx(embedded[i])))
+				k.violCtx("", "sctlist-marshal MarshalSCTsIntoSCTList element", fmt.Sprintf("element %d: %s, reference %s", i, hx(ml.SCTList[i].Val), hx(embedded[i])))
 				break
 			}
 		}
 		if enc, err := tls.Marshal(*ml); err != nil || !bytes.Equal(enc, sctListTLS) {
-			k.viol("sctlist-marshal tls.Marshal(SignedCertificateTimestampList)", fmt.Sprintf("err=%v got %s, reference %s", err, hx(enc), hx(sctListTLS)))
+			k.violCtx("", "sctlist-marshal tls.Marshal(SignedCertificateTimestampList)", fmt.Sprintf("err=%v got %s, reference %s", err, hx(enc), hx(sctListTLS)))
 		}
 	}
 	k.stage = "submission.ASN1MarshalSCTs"
 	if enc, err := submission.ASN1MarshalSCTs(assigned); err != nil || !bytes.Equal(enc, der.OctetString(sctListTLS)) {
-		k.viol("sctlist-marshal ASN1MarshalSCTs", fmt.Sprintf("err=%v got %s, reference %s", err, hx(enc), hx(der.OctetString(sctListTLS))))
+		k.violCtx("", "sctlist-marshal ASN1MarshalSCTs", fmt.Sprintf("err=%v got %s, reference %s", err, hx(enc), hx(der.OctetString(sctListTLS))))
 	}
 
 	// ---- (a') an SCT verifies exactly when it was signed over that entry --------
@@ -503,7 +575,7 @@ func (c *checker) runCase(k *caseCtx) {
 		if b.spec.rsa {
 			other = c.logEC
 		}
-		if ctutil.VerifySCT(other.Priv.Public(), chainF, b.lib, true) == nil {
+		if s.realSig && ctutil.VerifySCT(other.Priv.Public(), chainF, b.lib, true) == nil {
 			k.viol("verify-embedded accepts wrong-sct kind=other-public-key", fmt.Sprintf("SCT %s verified under another log's key", b.spec))
 		}
 		// leaf hashes of both routes
@@ -540,6 +612,20 @@ func (c *checker) runCase(k *caseCtx) {
 	}
 }
 
+func (c *checker) count(pw, fw, none bool) {
+	c.statMu.Lock()
+	if pw {
+		c.stat[0]++
+	}
+	if fw {
+		c.stat[1]++
+	}
+	if none {
+		c.stat[2]++
+	}
+	c.statMu.Unlock()
+}
+
 // lenWidthChanges: does any of the two outer length fields (TBS SEQUENCE,
 // [3] wrapper) change its width between a and b?
 func lenWidthChanges(a, b []byte) bool {
@@ -570,6 +656,8 @@ type family struct {
 	subjNs  []int
 	keys    []string
 	sctSets [][]sctSpec // one case per element; nil element: the default set for the mode
+	realSig bool
+	flip    bool
 }
 
 func defaultSCTs(mode int) []sctSpec {
@@ -577,7 +665,7 @@ func defaultSCTs(mode int) []sctSpec {
 	if mode == 0 {
 		return append(s, sctSpec{kind: "ikh-root"})
 	}
-	return append(s, sctSpec{kind: "unswapped"}, sctSpec{kind: "ikh-preissuer"})
+	return append(s, sctSpec{kind: "unswapped"})
 }
 
 func (c *checker) runFamily(f family) {
@@ -587,7 +675,7 @@ func (c *checker) runFamily(f family) {
 		n, dims[0], dims[1], dims[2], dims[3], dims[4], dims[5], dims[6], dims[7], dims[8]))
 	done := enum.Product(dims, c.r.Expired, func(ix []int) {
 		s := &spec{fam: f.name, lay: f.lays[ix[0]], mode: f.modes[ix[1]], is: f.issuers[ix[2]], serial: f.serials[ix[3]], val: f.vals[ix[4]],
-			uid: f.uids[ix[5]], subjN: f.subjNs[ix[6]], subjKey: f.keys[ix[7]], scts: f.sctSets[ix[8]]}
+			uid: f.uids[ix[5]], subjN: f.subjNs[ix[6]], subjKey: f.keys[ix[7]], scts: f.sctSets[ix[8]], realSig: f.realSig, flip: f.flip}
 		if s.scts == nil {
 			s.scts = defaultSCTs(s.mode)
 		}
@@ -640,6 +728,18 @@ func sctShapes(n int, exts []int) [][]sctSpec {
 func TestCheck(t *testing.T) {
 	r := rep.New("C03", "exploration")
 	th := r.Thorough()
+	if pf := os.Getenv("VERIF_C03_PROF"); pf != "" { // developer aid: CPU + mutex profile of the run
+		f, _ := os.Create(pf)
+		pprof.StartCPUProfile(f)
+		runtime.SetMutexProfileFraction(5)
+		stopProf = func() {
+			pprof.StopCPUProfile()
+			f.Close()
+			g, _ := os.Create(pf + ".mutex")
+			pprof.Lookup("mutex").WriteTo(g, 0)
+			g.Close()
+		}
+	}
 	c := &checker{r: r, th: th, al: neighbours(), px: map[*issuer]*parsedIssuer{},
 		logEC: pki.LoadKey("p256-9"), logRSA: pki.LoadKey("rsa2048-2"), logBad: pki.LoadKey("p256-8")}
 	root := pki.NewRoot("C03 Root", pki.LoadKey("p256-0"))
@@ -667,7 +767,7 @@ func TestCheck(t *testing.T) {
 			c.px[is] = p
 		}
 	}
-	r.Rule("every (precertificate, final certificate, expected entry) triple built from one TBSCertificate template: target extension (CT poison resp. SCT list) at every position among every ordered selection of 0..3 neighbours from {SAN, basicConstraints critical, AKI, SKI, unknown critical, unknown non-critical} (thorough: + keyUsage, a 300-byte extension, three OIDs adjacent to the CT OIDs) x issuance {final issuer, pre-issuer with AKI, pre-issuer without AKI (thorough: + full-form AKI)} x serial x validity encodings x unique ids x subject name encodings x subject key types x issuer key type and name encoding x SCT lists; plus the must-fail family (target absent / twice / both targets / wrong issuer) and the non-canonical observation family. distinct_nontrivial = distinct (issuance, precertificate TBS, expected entry TBS, SCT list shape) tuples on which all oracles were evaluated")
+	r.Rule("every (precertificate, final certificate, expected entry) triple built from one TBSCertificate template: target extension (CT poison resp. SCT list) at every position among every ordered selection of 0..3 neighbours from {SAN, basicConstraints critical, AKI, SKI, unknown critical, unknown non-critical} (thorough: + keyUsage, a 300-byte extension, four OIDs adjacent to the CT OIDs; quick runs those four with <= 2 neighbours) x issuance {final issuer, pre-issuer with AKI, pre-issuer without AKI (thorough: + full-form AKI)} x serial x validity encodings x unique ids x subject name encodings x subject key types x issuer key type and name encoding x SCT lists; plus the must-fail family (target absent / twice / both targets / wrong issuer) and the non-canonical observation family. distinct_nontrivial = distinct (issuance, precertificate TBS, expected entry TBS, SCT list shape) tuples on which all oracles were evaluated")
 	r.Assume("certificate signatures are real but never consulted by the functions under test; SCT signatures are made with std crypto over ref/ct6962's signature input",
 		"the pre-issuer and the final issuer sign with the same algorithm (RFC 6962 does not let a log rewrite TBSCertificate.signature)",
 		"where RFC 6962 s3.2 is silent the documented behaviour of BuildPrecertTBS defines the corresponding final certificate: a pre-issuer without AKI removes the leaf's AKI; a pre-issuer with AKI under a leaf without one appends the AKI as last extension",
@@ -677,38 +777,64 @@ func TestCheck(t *testing.T) {
 	core := layouts(nCoreNeighbours, 0, 3)
 	small := layouts(nCoreNeighbours, 0, 1)
 	mid := layouts(nCoreNeighbours, 0, 2)
+	// layouts around the two neighbours that interact with the transformation (AKI) or with criticality
+	var tiny []layout
+	for _, l := range mid {
+		ok := true
+		for _, x := range l.nbs {
+			ok = ok && (x == akiIdx || x == 4)
+		}
+		if ok && len(l.nbs) <= 1 {
+			tiny = append(tiny, l)
+		}
+	}
 	r.Set("layouts_core_0..3_neighbours", len(core))
 	sers, vals, us := serials(th), validities(), uids(th)
 	allN := []int{0, 1, 2}
 	modesQ := []int{0, 1 + preWithAKI, 1 + preNoAKI}
 	one := [][]sctSpec{nil}
+	ecRSA := []string{"p256", "rsa2048"}
 
 	if !th {
-		// Q1: every layout x issuance x serial x unique id x issuer key type
-		c.runFamily(family{"layouts", core, modesQ, c.pick([]string{"p256", "rsa2048"}, []int{0}), sers, vals[:1], us, []int{1}, subjectKeys[:1], one})
-		// Q2: every content combination on the layouts with <= 1 neighbour
-		c.runFamily(family{"contents", small, modesQ, c.pick([]string{"p256", "rsa2048"}, allN), sers, vals, us, allN, subjectKeys, one})
-		// Q3: validity x layout interplay on <= 2 neighbours
-		c.runFamily(family{"validity-x-layouts", mid, modesQ, c.pick([]string{"p256"}, []int{2}), sers[1:2], vals, us[:1], []int{2}, subjectKeys[2:3], one})
-		// Q4: every SCT list shape
-		c.runFamily(family{"sct-lists", small, modesQ, c.pick([]string{"p256"}, []int{1}), sers[:1], vals[:1], us[:1], []int{0}, subjectKeys[:1], sctShapes(3, []int{0, 1, 2})})
-		// Q5: every way of being the wrong SCT
-		c.runFamily(family{"wrong-scts", small, modesQ, c.pick([]string{"p256", "rsa2048"}, []int{0}), sers[:1], vals[:1], us[:1], []int{0}, subjectKeys[:1], wrongSets()})
+		// every layout x issuance x serial x issuer key type
+		c.runFamily(family{"layouts", core, modesQ, c.pick(ecRSA, []int{0}), sers, vals[:1], us[:1], []int{1}, subjectKeys[:1], one, false, false})
+		// names and keys: every issuer (key type x name encoding) x subject name x subject key, <= 1 neighbour
+		c.runFamily(family{"names-and-keys", small, modesQ, c.pick(ecRSA, allN), sers[:1], vals[:1], us[:1], allN, subjectKeys, one, false, false})
+		// scalar fields: serial x validity x unique ids x issuer key type, <= 1 neighbour
+		c.runFamily(family{"serial-validity-uid", small, modesQ, c.pick(ecRSA, []int{1}), sers, vals, us, []int{0}, subjectKeys[:1], one, false, false})
+		// validity x layout interplay on <= 2 neighbours
+		c.runFamily(family{"validity-x-layouts", mid, modesQ, c.pick([]string{"p256"}, []int{2}), sers[1:2], vals, us[1:2], []int{2}, subjectKeys[2:3], one, false, false})
+		// every SCT list shape
+		c.runFamily(family{"sct-lists", tiny, modesQ, c.pick([]string{"p256"}, []int{1}), sers[:1], vals[:1], us[:1], []int{0}, subjectKeys[:1], sctShapes(3, []int{0, 1, 2}), true, false})
+		// every way of being the wrong SCT
+		c.runFamily(family{"wrong-scts", mid, modesQ, c.pick(ecRSA, []int{0}), sers[:1], vals[:1], us[:1], []int{0}, subjectKeys[:1], wrongSets(), true, false})
+		// extensions whose OIDs are adjacent to the two CT OIDs (one more arc, the common prefix, a sibling)
+		c.runFamily(family{"adjacent-oids", layoutsOver([]int{8, 9, 10, 11, 0}, 1, 2), modesQ, c.pick([]string{"p256"}, []int{0}), sers[:1], vals[:1], us[:1], []int{0}, subjectKeys[:1], one, false, false})
+		// the target extension with the opposite criticality flag
+		c.runFamily(family{"target-criticality-flipped", small, modesQ, c.pick([]string{"p256"}, []int{0}), sers[:1], vals[:1], us[:1], []int{0}, subjectKeys[:1], one, false, true})
 		c.failures(mid, modesQ)
 	} else {
 		modesT := []int{0, 1 + preWithAKI, 1 + preNoAKI, 1 + preFullAKI}
-		c.runFamily(family{"layouts", core, modesT, c.pick(kinds, []int{0}), sers, vals, us, []int{1}, subjectKeys[:1], one})
-		c.runFamily(family{"contents", mid, modesT, c.pick(kinds, allN), sers, vals, us[:2], []int{0, 1, 2, 3}, subjectKeys, one})
+		c.runFamily(family{"layouts", core, modesT, c.pick(ecRSA, []int{0}), sers, vals[:1], []uidV{us[0], us[2], us[4]}, []int{1}, subjectKeys[:1], one, false, false})
+		c.runFamily(family{"layouts-other-issuer-keys", core, modesT, c.pick([]string{"p384", "ed25519"}, []int{1}), sers[1:2], vals[:1], us[:1], []int{1}, subjectKeys[:1], one, false, false})
+		c.runFamily(family{"validity-x-layouts", core, modesT, c.pick([]string{"p256"}, []int{2}), sers[1:2], vals, us[1:2], []int{2}, subjectKeys[2:3], one, false, false})
+		c.runFamily(family{"contents", small, modesT, append(c.pick(kinds, []int{0}), c.pick(ecRSA, []int{1, 2})...), sers[:3], vals, us[:2], []int{0, 1, 2, 3}, subjectKeys, one, false, false})
+		c.runFamily(family{"serial-validity-uid", small, modesT, c.pick(ecRSA, []int{1}), sers, vals, us, []int{0}, subjectKeys[:1], one, false, false})
 		ext := layouts(len(c.al), 1, 3)
 		r.Set("layouts_extended_alphabet_1..3_neighbours", len(ext))
-		c.runFamily(family{"layouts-extended-alphabet", ext, modesT, c.pick([]string{"p256", "rsa2048"}, []int{2}), sers[:2], vals[:1], us[:1], []int{0}, subjectKeys[:1], one})
+		c.runFamily(family{"layouts-extended-alphabet", ext, modesT, c.pick(ecRSA, []int{2}), sers[:2], vals[:1], us[:1], []int{0}, subjectKeys[:1], one, false, false})
 		four := layouts(nCoreNeighbours, 4, 4)
 		r.Set("layouts_core_4_neighbours", len(four))
-		c.runFamily(family{"layouts-4-neighbours", four, modesT, c.pick([]string{"p256"}, []int{0}), sers[1:2], vals[:1], us[:2], []int{1}, subjectKeys[:1], one})
-		c.runFamily(family{"sct-lists", mid, modesQ, c.pick([]string{"p256", "rsa2048"}, []int{1}), sers[:1], vals[:1], us[:1], []int{0}, subjectKeys[:1], append(sctShapes(3, []int{0, 1, 2}), sctShapes(2, []int{3})...)})
-		c.runFamily(family{"wrong-scts", mid, modesT, c.pick(kinds, []int{0}), sers[:1], vals[:1], us[:1], []int{0}, subjectKeys[:1], wrongSets()})
+		c.runFamily(family{"layouts-4-neighbours", four, modesT, c.pick([]string{"p256"}, []int{0}), sers[1:2], vals[:1], us[:2], []int{1}, subjectKeys[:1], one, false, false})
+		c.runFamily(family{"sct-lists", small, modesQ, c.pick(ecRSA, []int{1}), sers[:1], vals[:1], us[:1], []int{0}, subjectKeys[:1], append(sctShapes(3, []int{0, 1, 2}), sctShapes(2, []int{3})...), true, false})
+		c.runFamily(family{"wrong-scts", mid, modesT, c.pick(kinds, []int{0}), sers[:1], vals[:1], us[:1], []int{0}, subjectKeys[:1], wrongSets(), true, false})
+		c.runFamily(family{"adjacent-oids", layoutsOver([]int{8, 9, 10, 11, 0}, 1, 3), modesT, c.pick(ecRSA, []int{0}), sers[:1], vals[:1], us[:1], []int{0}, subjectKeys[:1], one, false, false})
+		c.runFamily(family{"target-criticality-flipped", mid, modesT, c.pick(ecRSA, []int{0}), sers[:1], vals[:1], us[:1], []int{0}, subjectKeys[:1], one, false, true})
 		c.failures(core, modesT)
 	}
+	r.Set("cases_where_removal_changes_the_width_of_a_length_field(precert route)", c.stat[0])
+	r.Set("cases_where_removal_changes_the_width_of_a_length_field(embedded route)", c.stat[1])
+	r.Set("cases_where_no_extension_remains", c.stat[2])
 	c.observations()
 	// the shared parsed issuer certificates must still be what was parsed
 	for is, p := range c.px {
@@ -721,8 +847,11 @@ func TestCheck(t *testing.T) {
 			}
 		}
 	}
+	stopProf()
 	r.Finish()
 }
+
+var stopProf = func() {}
 
 func wrongSets() [][]sctSpec {
 	return [][]sctSpec{
